@@ -22,14 +22,29 @@ ASSUMPTIONS = ["EXCHANGE_LIFETIME is the default 247 s of the incoming message's
                "copies coinciding (within 1e-9 s) with the empty-ACK timer, handler completion or the expiry timer "
                "are accepted either way"]
 EXPECTED_PROBES = ["transport_error_for_client", "dup_before_ack", "dup_after_empty_ack", "dup_after_piggyback", "dup_non", "dup_at_lifetime_minus",
-                   "dup_at_lifetime_plus", "same_mid_other_endpoint", "dup_same_instant", "same_mid_used_for_non_request_before", "wall_clock_step"]
+                   "dup_at_lifetime_plus", "same_mid_other_endpoint", "dup_same_instant", "same_mid_used_for_non_request_before", "wall_clock_step", "blockwise_upload", "bare_resource_as_site"]
 
 LIFETIME = 247.0
 HANDLERS = ["fast", "slow", "raise", "slowraise"]
 SLOW = 0.4
 
 
+def gen_upload(r):
+    """A request body that arrives in two Block1 blocks (two datagrams, two message IDs, assembled by the library), at a
+    server whose site is a Site or -- legal, and what the proxy classes do -- a bare resource; copies of either block
+    within the lifetime, and the first block's message ID used again for something else after its lifetime."""
+    d = r.choice([0.5, 5.0, 30.0, 80.0])
+    return {"upload": {"bare": r.chance(0.6), "d": d, "szx": r.choice([0, 2]),
+                       "copy0": r.choice([None, 1.0, 100.0, LIFETIME - 1e-3]),
+                       "copy1": r.choice([None, 1.0, LIFETIME - d / 2, LIFETIME - 1e-3]),
+                       "reuse0": r.choice([LIFETIME + 1e-3, LIFETIME + 1.0, 400.0]),
+                       "mid0": r.choice([0, 7, 0xFFFF, r.randrange(65536)])},
+            "nclients": 1, "reqs": []}
+
+
 def gen(r, tier):
+    if r.chance(0.1):
+        return gen_upload(r)
     nclients = r.choice([1, 2, 2, 3])
     # a small pool so that clients collide with each other, plus IDs the SERVER will use for its own messages
     # (separate responses; the clients acknowledge those, so the same number occurs in both directions)
@@ -85,6 +100,11 @@ def systematic(tier):
                          "copies": [p]},
                         {"id": 1, "client": 1, "mid": 7, "con": con, "handler": h, "no_response": nr, "t": 0.01,
                          "copies": []}]})
+    for bare in (False, True):
+        for d in (0.5, 30.0, 80.0):
+            for c0, c1 in ((None, None), (100.0, 1.0), (LIFETIME - 1e-3, LIFETIME - d / 2), (None, LIFETIME - 1e-3)):
+                out.append({"upload": {"bare": bare, "d": d, "szx": 0, "copy0": c0, "copy1": c1, "reuse0": LIFETIME + 1e-3, "mid0": 7},
+                            "nclients": 1, "reqs": []})
     for by in (-3600.0, -100.0, 300.0, 3600.0):
         for p in (1.0, 200.0, LIFETIME - 1e-3, LIFETIME + 1e-3, 400.0):
             for con in (True, False):
@@ -99,6 +119,12 @@ def draw_bias(scn):
 
 
 def shrink(scn):
+    if scn.get("upload"):
+        u = scn["upload"]
+        for k in ("copy0", "copy1"):
+            if u.get(k) is not None:
+                yield dict(scn, upload=dict(u, **{k: None}))
+        return
     reqs = scn["reqs"]
     if len(reqs) > 1:
         for i in range(len(reqs)):
@@ -130,7 +156,89 @@ class Client(ScriptedEndpoint):
                                 "payload": b""}, fate=["deliver", 0.005])
 
 
+def execute_upload(sim, scn):
+    import aiocoap.resource as resource
+    from aiocoap import Message
+
+    loop = sim.loop
+    up = scn["upload"]
+    inv = []
+
+    class Up(resource.Resource):
+        async def render_put(self, request):
+            inv.append((loop.now, "PUT", bytes(request.payload)))
+            sim.log("app", "invoke", "PUT", len(request.payload))
+            return Message(payload=b"stored")
+
+        async def render_get(self, request):
+            inv.append((loop.now, "GET", b""))
+            sim.log("app", "invoke", "GET")
+            return Message(payload=b"state")
+
+    async def setup():
+        if up["bare"]:
+            sim.probe("bare_resource_as_site")
+            return await sim.server(Up(), common.SERVER_IP)
+        site = resource.Site()
+        site.add_resource(["up"], Up())
+        return await sim.server(site, common.SERVER_IP)
+
+    loop.run_until_complete(setup())
+    srv = (common.SERVER_IP, 5683)
+    cl = Client(sim, common.PEER_IPS[0], 5683)
+    size = 16 << up["szx"]
+    body = bytes((i * 7 + 3) & 0xFF for i in range(size + 5))
+    A = up["mid0"]
+    B = (A + 1) & 0xFFFF
+    tok = b"\xc7\x01"
+    path = [(rc.URI_PATH, b"up")]
+    b0 = rc.encode({"type": rc.CON, "code": rc.PUT, "mid": A, "token": tok,
+                    "options": path + [(rc.BLOCK1, rc.block_bytes(0, True, up["szx"]))], "payload": body[:size]})
+    b1 = rc.encode({"type": rc.CON, "code": rc.PUT, "mid": B, "token": tok,
+                    "options": path + [(rc.BLOCK1, rc.block_bytes(1, False, up["szx"]))], "payload": body[size:]})
+    get = rc.encode({"type": rc.CON, "code": rc.GET, "mid": A, "token": b"\xc7\x02", "options": path, "payload": b""})
+    t0, t1 = 0.1, 0.1 + up["d"]
+    sim.probe("blockwise_upload")
+    cl.send(srv, raw=b0, fate=["at", t0])
+    cl.send(srv, raw=b1, fate=["at", t1])
+    ndup = 0
+    if up.get("copy0") is not None:
+        cl.send(srv, raw=b0, fate=["at", t0 + up["copy0"]])
+        ndup += 1
+    if up.get("copy1") is not None:
+        cl.send(srv, raw=b1, fate=["at", t1 + up["copy1"]])
+        ndup += 1
+    t_reuse = t0 + up["reuse0"]
+    cl.send(srv, raw=get, fate=["at", t_reuse])
+    sim.run()
+    sim.nontrivial = True
+    sim.extra_faults = {"dup": ndup} if ndup else {}
+    ident = {"bare": up["bare"], "gap_between_blocks": up["d"], "mid0": A}
+    out = [(e["t"], e["msg"], e["data"]) for e in sim.net.wire if e["src"] == srv and e["dst"] == cl.addr and e["msg"] is not None]
+    acks0 = [(t, m, d) for (t, m, d) in out if m["type"] == rc.ACK and m["mid"] == A and t < t_reuse - TOL]
+    acks1 = [(t, m, d) for (t, m, d) in out if m["type"] == rc.ACK and m["mid"] == B]
+    late0 = [(t, m, d) for (t, m, d) in out if m["type"] == rc.ACK and m["mid"] == A and t >= t_reuse - TOL]
+    puts = [x for x in inv if x[1] == "PUT"]
+    if len(puts) != 1 or puts[0][2] != body:
+        sim.violation("C04/handler-invoked-for-duplicate" if len(puts) > 1 else "C04/upload-not-delivered",
+                      dict(ident, invocations=len(puts), body_ok=bool(puts and puts[0][2] == body)))
+        return
+    if len({d for (t, m, d) in acks0}) != 1 or acks0[0][1]["code"] != rc.CONTINUE or len(acks0) != 1 + (up.get("copy0") is not None):
+        sim.violation("C04/duplicate-not-answered-with-same-ack", dict(ident, block=0, acks=[rc.summary(m) for (t, m, d) in acks0]))
+    if len({d for (t, m, d) in acks1}) != 1 or acks1[0][1]["code"] != rc.CHANGED or len(acks1) != 1 + (up.get("copy1") is not None):
+        sim.violation("C04/duplicate-not-answered-with-same-ack", dict(ident, block=1, copy_after=up.get("copy1"),
+                                                                       acks=[rc.summary(m) for (t, m, d) in acks1]))
+    gets = [x for x in inv if x[1] == "GET"]
+    if len(gets) != 1 or not late0 or late0[0][1]["code"] != rc.CONTENT:
+        sim.violation("C04/request-after-lifetime-not-processed", dict(ident, reuse_after=up["reuse0"], invocations=len(gets),
+                                                                       answered=[rc.summary(m) for (t, m, d) in late0]))
+    for (t, m, en, es) in sim.loop_exceptions():
+        sim.anomaly("loop-exception", "%s %s %s" % (m, en, es))
+
+
 def execute(sim, scn):
+    if scn.get("upload"):
+        return execute_upload(sim, scn)
     import asyncio
     import aiocoap.resource as resource
     from aiocoap import Message
